@@ -196,6 +196,7 @@ CONSTANTS
   MAXUPD = 0
   CANCELS = 2
   TIMERS = TRUE
+  SeesAdmitting = TRUE
 INVARIANTS TAdmission TClean TOneTerminal NoDoubleBooking TypeOK
 POSTCONDITION TraceAccepted
 CHECK_DEADLOCK FALSE
@@ -220,7 +221,7 @@ def run(chk):
     # ---------------- model
     r = vlib.run_tlc("MC_QueryLifecycle", "MC_QueryLifecycle_sync.cfg", timeout=900, coverage=False)
     vlib.tlc_must_hold(r, "QueryLifecycle sync Q=2")
-    chk.add_tlc("MC_QueryLifecycle_sync", r, "Q=2 MAXRUN=1 CAP=10: all safety invariants + deadlock freedom")
+    chk.add_tlc("MC_QueryLifecycle_sync", r, "Q=2 MAXRUN=1 CAP=10: all safety invariants incl. CancelTakesEffect + deadlock freedom")
     if not quick:
         # Q=3 with cancels AND timers does not finish (>280 M states in 40 min, measured); the two halves do
         for cfg, what in (("MC_QueryLifecycle_sync3_cancel.cfg", "Q=3 MAXRUN=2 CANCELS=1 no timers, symmetry (1.3 M distinct)"),
@@ -229,8 +230,10 @@ def run(chk):
             r3 = vlib.run_tlc("MC_QueryLifecycle", cfg, timeout=2400, heap="12g")
             vlib.tlc_must_hold(r3, "QueryLifecycle " + cfg)
             chk.add_tlc(cfg[:-4], r3, what)
-    rc = vlib.run_tlc("MC_QueryLifecycle", "MC_QueryLifecycle_cancelwaiting.cfg", timeout=600)
-    chk.cov["model_candidates"] = {"CancelTakesEffect": "violated" if "CancelTakesEffect" in rc.violated else "holds"}
+    rc = vlib.run_tlc("MC_QueryLifecycle", "MC_QueryLifecycle_noadmitting.cfg", timeout=600)
+    if "CancelTakesEffect" not in rc.violated:
+        raise vlib.Infra("model sensitivity lost: without the admitting-query look a cancel between dequeue and run must be lost in the model")
+    chk.cov["model_candidates"] = {"CancelTakesEffect": "holds (checked in the sync configs); SeesAdmitting=FALSE (code before the second cancel fix) violates it"}
     ra = vlib.run_tlc("MC_QueryLifecycle", "MC_QueryLifecycle_async.cfg", timeout=900)
     chk.cov["model_candidates"]["async NoStuckSender"] = "violated (websocket path: executor can block on a full channel " \
         "after the handler returned; not driven on the real code)" if "NoStuckSender" in ra.violated else "holds"
